@@ -569,7 +569,9 @@ def run_svg(ctx):
 
 def replay_svg(ctx, case):
     res = run_case(case, ctx.scratch)
-    bad = [f for f in res['fails']]
+    bad = [f for f in res['fails'] if f[1] is None]
+    known = sorted({f[1] for f in res['fails'] if f[1]})
+    note = (' (known findings also seen on this case: ' + ', '.join(known) + ')') if known else ''
     if bad:
-        return False, '; '.join(f'{d}' + (f' [{fid}]' if fid else '') for d, fid in bad[:3])
-    return True, f'plot checked: {res["stats"]}'
+        return False, '; '.join(d for d, _ in bad[:3]) + note
+    return True, f'plot checked: {res["stats"]}' + note
